@@ -95,7 +95,8 @@ func (p *c09Probe) run() (res string) {
 	d := newDst(p.dec)
 	err := p.dec.cfg.api.Unmarshal([]byte(p.dec.doc), d.Interface())
 	if err != nil {
-		return "ERR " + gen.Dump(d.Elem())
+		// the error too: which mismatch is reported, and where, is part of the result
+		return "ERR " + gen.Dump(d.Elem()) + " | " + trunc(err.Error(), 400)
 	}
 	return "OK " + gen.Dump(d.Elem())
 }
@@ -140,6 +141,7 @@ var c09Special = []struct {
 	{"big", reflect.TypeOf(cat.Big{})}, {"big", reflect.TypeOf([]cat.Big{})},
 	{"embed", reflect.TypeOf(cat.Embeds{})}, {"embed", reflect.TypeOf(cat.Mid{})}, {"embed", reflect.TypeOf(cat.EmbMarshaler{})}, {"embed", reflect.TypeOf(cat.Conflict{})},
 	{"iface", reflect.TypeOf(cat.Ifaces{})}, {"iface", reflect.TypeOf(cat.HasDefPtr{})}, {"iface", reflect.TypeOf(cat.MapKeys{})}, {"iface", reflect.TypeOf(cat.PtrMarsh{})},
+	{"omit", reflect.TypeOf(cat.OmitFlat{})}, {"omit", reflect.TypeOf(cat.OmitHolder{})}, {"omit", reflect.TypeOf([]cat.OmitFlat{})}, {"omit", reflect.TypeOf(map[string]cat.OmitHolder{})},
 	{"pv", cat.PVSafe[0]}, {"pv", cat.PVSafe[1]}, {"pv", cat.PVSafe[2]}, {"pv", reflect.SliceOf(cat.PVSafe[0])}, {"pv", reflect.MapOf(reflect.TypeOf(""), cat.PVSafe[0])},
 }
 
@@ -235,7 +237,7 @@ func c09Filler(c *Ctx, n int, enc, dec bool, tag string) {
 	c.Count("prelude_throwaway_types", int64(n))
 }
 
-const c09Kinds = 16
+const c09Kinds = 17
 
 func runC09(c *Ctx) {
 	ps := c09Probes(c)
@@ -385,6 +387,16 @@ func runC09(c *Ctx) {
 		// probes interleaved with throw-away types and pretouches of what comes later
 		shuffle()
 		note("probes shuffled, interleaved with throw-away types and Pretouch of later probe types")
+	case 16:
+		// A documented compile option that changes the encoding of the type it is given to:
+		// WithCompileEncOnlyOmitNull. It is applied to a type that is NOT a probe but inlines the
+		// same struct types as probes do (by value, within the inline depth, so that none of them
+		// gets a program of its own from this call): the probes must not notice.
+		err := sonic.Pretouch(reflect.TypeOf(cat.OmitOther{}), option.WithCompileEncOnlyOmitNull(true))
+		out, err2 := sonic.ConfigStd.Marshal(cat.OmitOther{})
+		pretouched++
+		shuffle()
+		note("Pretouch(OmitOther, EncOnlyOmitNull) err=%v, Marshal(OmitOther{})=%s err=%v, then probes shuffled", err != nil, out, err2 != nil)
 	case 15:
 		// everything in one module, outermost types last, lowest inline depth
 		ts := append([]reflect.Type{}, types...)
